@@ -80,6 +80,11 @@ func ctxScenario(p ctxParams) func() {
 			}
 			return world.Reply{}
 		}
+		if p.state == "crashed" {
+			// node 1 was connected and has crashed: sender and receiver go through reconnect and its back-off
+			w.FW.Crash(world.Addr(1))
+			mc.Quiesce()
+		}
 		// background traffic on node 1 with contexts that never end
 		bg := 0
 		switch p.state {
@@ -169,7 +174,7 @@ func ctxScenario(p ctxParams) func() {
 				fail("C08/no-error", key, "%s: node 1 never answers, yet the call reports no error", name)
 			case errors.Is(rerr, gorums.Incomplete):
 				// every node answered with a reply or an error before the context ended
-			case p.state == "down" && p.kind == "GRPCCall" && status.Code(rerr) == codes.Unavailable:
+			case (p.state == "down" || p.state == "crashed") && p.kind == "GRPCCall" && status.Code(rerr) == codes.Unavailable:
 				// the node's own failure was reported before (or together with) the context's end
 			case !errors.Is(rerr, p.cause):
 				fail("C08/error-mismatch", key, "%s: the call reports %v, which does not match the context's error %v", name, rerr, p.cause)
@@ -191,7 +196,7 @@ func ctxInstances(tier string) []Instance {
 		kinds = append(kinds, k{"QuorumCallCombo", false}, k{"QuorumCallAsyncPerNodeArg", false}, k{"MulticastPerNodeArg", false})
 	}
 	for _, kd := range kinds {
-		for _, st := range []string{"down", "silent", "window-full", "sender-busy", "abandoned-stream"} {
+		for _, st := range []string{"down", "silent", "window-full", "sender-busy", "abandoned-stream", "crashed"} {
 			for _, buf := range []uint{0, 1, 2} {
 				if buf == 2 && !thorough(tier) {
 					continue
@@ -225,7 +230,7 @@ func ctxInstances(tier string) []Instance {
 
 func init() {
 	register(&Check{ID: "C08",
-		Rule:        "9 call variants (12 thorough) x node-1 state {down, silent (handler never returns), window full (this call's write blocks), sender busy (an earlier message with a never-ending context is stuck in the write, this call queues behind it), an earlier server-stream call abandoned by an adversary thread while the servers stream} x send buffer {0,1(,2)} x context end {Canceled, DeadlineExceeded} x {already ended before the call, ended by an adversary thread placed by the explorer at every instant within the deviation bound: before queuing, while queued, while being written, while waiting}; oracle (strict, untimed): at quiescence after the context ended - no timer fired, no handler returned - the call has returned / its future or correctable is done, and a reported error matches the context's error under errors.Is; an outcome is (instance, returned, error reported)",
+		Rule:        "9 call variants (12 thorough) x node-1 state {down at creation, crashed after it was connected (reconnect and back-off in progress), silent (handler never returns), window full (this call's write blocks), sender busy (an earlier message with a never-ending context is stuck in the write, this call queues behind it), an earlier server-stream call abandoned by an adversary thread while the servers stream} x send buffer {0,1(,2)} x context end {Canceled, DeadlineExceeded} x {already ended before the call, ended by an adversary thread placed by the explorer at every instant within the deviation bound: before queuing, while queued, while being written, while waiting}; oracle (strict, untimed): at quiescence after the context ended - no timer fired, no handler returned - the call has returned / its future or correctable is done, and a reported error matches the context's error under errors.Is; an outcome is (instance, returned, error reported)",
 		Gen:         ctxInstances,
 		Assumptions: []string{"'promptly' is decided in its untimed form: completion by library-internal steps only, without any timer expiry or further message", "transport window 1 so that a non-reading server blocks the second unread write"},
 	})
